@@ -1,3 +1,6 @@
+import json
+
+from ..enumcheck import enum_pass, enum_replay
 from ..explore import bfs_check, bfs_replay
 
 PROP = "C07"
@@ -10,21 +13,46 @@ RULE = ("state = event history replayed on a fresh QXmppClient over loopback TCP
         "completes with exactly its value; a reply from any other sender (or a request with the same id) neither completes nor cancels; "
         "after a non-resumable end of session / new session / destruction every outstanding request is complete with a send error; "
         "absent 'from' on an addressed request and own-full/own-domain on an own-account request are don't-cares.")
+RULE += (" MANAGER SWEEP (harness c07_mgr): each of the 77 task-returning request APIs of the bundled managers (blocking, disco, time, external "
+         "services, MAM, MIX, moved, pubsub/PEP, roster, upload, location, tune, vCard, account migration) is called on a fresh logged-in "
+         "client with all managers installed; every request IQ the client writes is answered, round by round, according to every script of "
+         "length <= 2 (thorough 3) over {empty result, error, result with an unexpected payload, result echoing the request payload, "
+         "silence} (MAM also: <fin/> after 0 / 1 plain / 1 encrypted / 2 mixed result messages), with and without a forged copy of the first "
+         "reply from a stranger sent first, with and without an encryption extension installed; a request still pending at the end of the "
+         "script meets a non-resumable connection loss. Oracle: the returned task completes exactly once; the forged reply completes nothing; "
+         "the process neither crashes nor hangs.")
 ASSUME = ["three outstanding requests at most; ids r1..r3 chosen by the harness",
           "sends are issued only while a session is open",
-          "manager-level request APIs are not part of this BFS (generic IQ requests through QXmppClient::sendIq)"]
+          "manager sweep: one call per API with fixed plausible arguments; the encryption extension is a pass-through stub; "
+          "signal-based request APIs (registration, version, MUC, archive, bookmarks) return no task and are outside the sweep"]
 WIT = ["completed_by_reply", "wrong_sender_replies", "cancelled_by_drop", "retained_over_drop", "resumed", "new_session", "destroyed"]
+
+
+def manager_sweep(tier):
+    def extra(findings, cov):
+        r = enum_pass(PROP, "c07_mgr", tier, [], findings, label="manager sweep",
+                      witness=("completed_by_reply_or_send", "completed_by_connection_loss", "mam_page_cases"))
+        cov["manager_sweep_cases"] = r["evaluations"]
+        cov["manager_sweep_counters"] = r["counters"]
+        cov["manager_sweep_outcomes"] = len(r["outcomes"])
+        cov["manager_sweep_violation_counts_by_key"] = r["violation_keys"]
+        cov["evaluations"] += r["evaluations"]
+        if r["timed_out"]:
+            cov["exhaustive"] = False
+    return extra
 
 
 def run(tier):
     if tier == "thorough":
         cfgs = [dict(name="sm-resumable", config={"sm": True, "resumable": True}, depth=7, dev=3, deadline=1200),
                 dict(name="no-sm", config={"sm": False}, depth=7, dev=3, deadline=900)]
-        return bfs_check(PROP, HARNESS, tier, cfgs, RULE, ASSUME, witness_required=WIT, crosscheck_depth=3)
+        return bfs_check(PROP, HARNESS, tier, cfgs, RULE, ASSUME, witness_required=WIT, crosscheck_depth=3, extra_pass=manager_sweep(tier))
     cfgs = [dict(name="sm-resumable", config={"sm": True, "resumable": True}, depth=5, dev=2, deadline=300),
             dict(name="no-sm", config={"sm": False}, depth=4, dev=2, deadline=200)]
-    return bfs_check(PROP, HARNESS, tier, cfgs, RULE, ASSUME, witness_required=WIT)
+    return bfs_check(PROP, HARNESS, tier, cfgs, RULE, ASSUME, witness_required=WIT, extra_pass=manager_sweep(tier))
 
 
 def replay(path):
+    if json.load(open(path)).get("harness") == "c07_mgr":
+        return enum_replay(PROP, "c07_mgr", path)
     return bfs_replay(PROP, HARNESS, path)
